@@ -10,7 +10,8 @@ BASELINE = ("cd /repo && env -u TALLY_VERIF /venv/bin/python -m pytest -q -p no:
 CHECKS = {
     'C06': dict(
         technique='TLA+ spec Totals.tla: TLC checks conservation/marginal/order-independence invariants on the fold; '
-                  'every reachable state replayed into analyze_transactions; recorded runs validated by Trace_Totals.tla',
+                  'every reachable state replayed into analyze_transactions; recorded runs validated by Trace_Totals.tla; the same laws as an '
+                  'inductive invariant over unbounded integer amounts discharged by Apalache (Totals_Ind.tla, model level)',
         text='TLC exhausts every transaction list up to the bound over an alphabet containing every bucket, sign, tag-case '
              'and precedence conflict and checks the C06 laws in each state; each state is replayed into the real '
              'analyze_transactions in three orders, and thousands of independently generated runs are validated by the '
@@ -148,7 +149,9 @@ CHECKS['C17'] = dict(
     technique='TLA+ spec RulesFile.tla (both line-oriented readers as state machines over line tokens; the intended reader rejects, never '
               'trims): TLC checks CommentsIrrelevant / PropOrderIrrelevant / OneRulePerSection / ExactProps / RejectNotTrim on valid base '
               'files and every single (views: double) edit of them; every state rendered with random layout (indentation, trailing blanks, '
-              'CRLF, key case) and read by parse_merchants / parse_sections; tally up / diag on corrupt files',
+              'CRLF, key case) and read by parse_merchants / parse_sections; tally up / diag on corrupt files; code -> spec: the own files of tally, '
+              'random rule and views files, edited and corrupted at the text level, tokenised by a line tokeniser of the harness and validated by '
+              'Trace_RulesFile.tla (RulesFile!Result must equal what the real reader returned; tamper control)',
     text='Every single-point corruption and layout-preserving edit of the base files is enumerated by TLC; rules read, or the error line, '
          'are compared with the specification; the command line must report an unloadable rules file.',
     note='one token per line; duplicate single-valued properties not generated; any corrupted line is accepted as the reported line',
@@ -262,7 +265,12 @@ def main():
         'engines': [{'name': 'tlc', 'path': '/opt/veriftools/tla/tla2tools.jar',
                      'serves_properties': sorted(CHECKS),
                      'kind_free_text': 'explicit TLA+ specification (spec/*.tla) model-checked by TLC; dump/simulate '
-                                       'states replayed into the code; recorded executions validated by Trace_* specs'}],
+                                       'states replayed into the code; recorded executions validated by Trace_* specs'},
+                    {'name': 'apalache', 'path': '/opt/veriftools/apalache',
+                     'serves_properties': ['C06'],
+                     'kind_free_text': 'symbolic model checker for TLA+: discharges the inductive invariant of spec/Totals_Ind.tla (conservation '
+                                       'and agreement of the marginals for unbounded integer amounts); model level only, the verdict of C06 comes '
+                                       'from TLC + replay + trace validation; skipped (and said so in the evidence) when not installed'}],
         'checks': checks,
         'not_applicable': na,
         'notes': 'exit 0 = held; exit 1 + VIOLATION line = a behaviour of the real code breaks the property; exit 2 = '
